@@ -34,12 +34,11 @@ Theorem C13_exogenous_true_after_any_word (b : bool) (cs : list cmd) :
   fst (filter_skip NExogenous b (snd (run cs (init_of (ViaStateModel true))))) = Ok true.
 Proof. exact (exogenous_supplied_via_state_model b cs). Qed.
 
-(* REFUTED at full strength ("on every filter configuration with an exogenous model"): a bootstrap
-   prediction built with DrawParticles(state_model, exogenous_model) answers false and ignores the model *)
-Theorem C13_exogenous_supplied_true_refuted :
-  exists (a : assembly) (b : bool),
-    exo_supplied a = true /\ filter_skip NExogenous b (init_of a) = (Ok false, init_of a).
-Proof. exact exogenous_supplied_true_refuted. Qed.
+(* on every filter configuration with an exogenous model, however it was supplied (add_exogenous_model or
+   the DrawParticles(state_model, exogenous_model) constructor), at any point of any command word *)
+Theorem C13_exogenous_supplied_true (a : assembly) (b : bool) (cs : list cmd) :
+  exo_supplied a = true -> fst (filter_skip NExogenous b (snd (run cs (init_of a)))) = Ok true.
+Proof. exact (exogenous_supplied_true a b cs). Qed.
 
 (* ... and false, changing nothing, when it does not *)
 Theorem C13_exogenous_without_model_false_unchanged (b : bool) (f : flags) :
@@ -178,7 +177,7 @@ Print Assumptions C13_never_throws.
 Print Assumptions C13_known_word_all_true.
 Print Assumptions C13_exogenous_with_model_true.
 Print Assumptions C13_exogenous_true_after_any_word.
-Print Assumptions C13_exogenous_supplied_true_refuted.
+Print Assumptions C13_exogenous_supplied_true.
 Print Assumptions C13_exogenous_without_model_false_unchanged.
 Print Assumptions C13_unknown_false_unchanged.
 Print Assumptions C13_flags_match_commands.
